@@ -95,8 +95,21 @@ func runPair(c *ctx, id string, cfg runCfg, oldS, newS []Stmt, style sqlStyle) {
 	} else {
 		upFlip, downFlip = r, r
 	}
+	// the same pair under the other keyword-case option (C10)
+	ccfg := cfg
+	ccfg.lower = !cfg.lower
+	co, cn := ccfg.newSqlize(), ccfg.newSqlize()
+	load(co, ccfg, style0(style), oldS)
+	load(cn, ccfg, style0(style), newS)
+	upCase, downCase := "", ""
+	if r := guard(func() string { cn.Diff(*co); return "ok" }); r == "ok" {
+		upCase = guard(func() string { return cn.StringUp() })
+		downCase = guard(func() string { return cn.StringDown() })
+	} else {
+		upCase, downCase = r, r
+	}
 	c.emit(id, "pair", cfg.sexp(), stmtsSexp(oldS), stmtsSexp(newS),
-		obs("errOld", eo, "errNew", en, "stOld", stOld, "stNew", stNew, "hOld", hOld, "hNew", hNew, "errDiff", ed,
+		obs("upCase", upCase, "downCase", downCase, "errOld", eo, "errNew", en, "stOld", stOld, "stNew", stNew, "hOld", hOld, "hNew", hNew, "errDiff", ed,
 			"stDiff", stDiff, "up", up, "down", down, "up2", up2, "inv", inv, "upFlip", upFlip, "downFlip", downFlip))
 	if up != "" || down != "" {
 		c.nontrivial(cfg.sexp() + stmtsSexp(oldS) + stmtsSexp(newS))
@@ -157,7 +170,7 @@ func runRoutes(c *ctx, id string, cfg runCfg, s *gSchema) {
 		case "explicit-using-btree":
 			ss := s.scriptGrouped()
 			for i := range ss {
-				if ss[i].Kind == "createIndex" {
+				if ss[i].Kind == "createIndex" && ss[i].Using == "" { // the default index type, spelled out
 					ss[i].Using = "BTREE"
 				}
 			}
